@@ -3,5 +3,6 @@ namespace Updog.Facts
 open Updog.Generated
 /-- AddRow holds the writer lock from its first statement; the id increment is a deferred function registered after the
     deferred unlock, so it runs before the unlock -/
-theorem C18_facts : addRowLockedMem = true ∧ addRowLockedBig = true := by decide
+theorem C18_facts : addRowLockedMem = true ∧ addRowLockedBig = true ∧ addRowNoGoroutineMem = true ∧
+    addRowNoGoroutineBig = true := by decide
 end Updog.Facts
